@@ -653,6 +653,12 @@ func (e *Env) call(c *CallE) Val {
 		p := x.scalar(e.eval(c.Args[0]))
 		x.useTop()
 		return boolTV(and("(> "+p+" "+e.alloc+")", eq("(top "+p+")", p)))
+	case "sinceentry":
+		// sinceentry(p): p designates an object allocated by the function under verification (after its entry) --
+		// in a precondition of a callee that takes ownership of memory: the caller hands over memory of its own making
+		pp := x.scalar(e.eval(c.Args[0]))
+		x.useTop()
+		return boolTV(and("(> "+pp+" |alloc@0|)", eq("(top "+pp+")", pp)))
 	case "strless":
 		x.reg.declare("strlt", "(Int Int) Bool")
 		return boolTV("(strlt " + x.scalar(e.eval(c.Args[0])) + " " + x.scalar(e.eval(c.Args[1])) + ")")
